@@ -63,7 +63,9 @@ func (*c06) Level() string                  { return "exploration" }
 func (*c06) Decode(raw []byte) (any, error) { return decodeInto[C06Scenario](raw) }
 
 var c06Names = []string{"", "", "Plain Name", "Last, First", "Ünï Cödé", "名前 太郎", "Dr. Who (tardis)", "semi;colon", "at@sign", "a very long display name that will have to be folded somewhere along the line by the header writer",
-	"Doe,  John", "Dept. A   / Room 2", "tab\tin the name", "two  blanks in a display name that is long enough to be folded by the header writer  somewhere"}
+	"Doe,  John", "Dept. A   / Room 2", "tab\tin the name", "two  blanks in a display name that is long enough to be folded by the header writer  somewhere",
+	// non-ASCII together with characters that mean something in an address list
+	"Müller, Jörg", "Jörg Müller (Vertrieb)", "Größe: <XL> [neu]", `"Zitat" für ünï; cödé`, "bücher@laden"}
 
 func c06Addr(r *sim.Rand, tok, field string, n int) AddrSpec {
 	local := fmt.Sprintf("%s-%s-%d", field, tok, n)
@@ -180,7 +182,7 @@ func (p *c06) Gen(seed uint64, i int, tier string) (any, bool) {
 		sc.SendmailFirst = sim.Pick(r, []string{"missing", "expired"})
 	}
 	if r.Chance(1, 3) {
-		sc.Server.Rules = []refsmtpd.Rule{{Verb: "RCPT", Nth: 1 + r.Intn(3), Action: refsmtpd.Action{Code: sim.Pick(r, []int{450, 550}), Text: "recipient refused"}}}
+		sc.Server.Rules = []refsmtpd.Rule{{Verb: "RCPT", Nth: 1 + r.Intn(3), Action: refsmtpd.Action{Code: sim.Pick(r, []int{450, 550, 452, 552}), Text: "recipient refused"}}}
 		if r.Chance(1, 3) {
 			sc.Server.Rules = append(sc.Server.Rules, refsmtpd.Rule{Verb: "MAIL", Nth: 1, Action: refsmtpd.Action{Code: 451, Text: "try later"}})
 		}
@@ -744,7 +746,7 @@ func (p *c06) Shrink(scAny any) []any {
 
 func (p *c06) Info() PropInfo {
 	return PropInfo{
-		Rule: "seeded search: 1..2 messages, each built by a sender call followed by 2..8 address-setting calls drawn from {To/Cc/Bcc: set (0..3 addresses), AddX, AddXFormat, XIgnoreInvalid, XFromString; From/EnvelopeFrom/ReplyTo: plain and Format variants, FromIgnoreInvalid} with generated addresses (unique per field, some local parts needing quoting or UTF-8, display names plain / with comma / non-ASCII / with parentheses / very long / with runs of blanks / with a TAB, duplicates within a list, invalid inputs mixed in), applied to the Msg and to the reference model; a quarter of the messages are built on a Msg value that carried another mail before and was Reset(); FromString lists partly with an invalid field; the envelope sender taken back; an address that an earlier call put into another field (one RCPT per occurrence); domains with upper-case letters; an eighth of the scenarios first try a hand-over to a sendmail binary that does not exist (or with a context that is over); then a direct render and DialAndSend under no fault or a refused RCPT (450/550) optionally plus a refused MAIL; non-trivial = at least one message is sendable; distinct = distinct (call sequence, reply script, seed)",
+		Rule: "seeded search: 1..2 messages, each built by a sender call followed by 2..8 address-setting calls drawn from {To/Cc/Bcc: set (0..3 addresses), AddX, AddXFormat, XIgnoreInvalid, XFromString; From/EnvelopeFrom/ReplyTo: plain and Format variants, FromIgnoreInvalid} with generated addresses (unique per field, some local parts needing quoting or UTF-8, display names plain / with comma / non-ASCII / non-ASCII together with , ( ) : ; < > @ [ ] \" / with parentheses / very long / with runs of blanks / with a TAB, duplicates within a list, invalid inputs mixed in), applied to the Msg and to the reference model; a quarter of the messages are built on a Msg value that carried another mail before and was Reset(); FromString lists partly with an invalid field; the envelope sender taken back; an address that an earlier call put into another field (one RCPT per occurrence); domains with upper-case letters; an eighth of the scenarios first try a hand-over to a sendmail binary that does not exist (or with a context that is over); then a direct render and DialAndSend under no fault or a refused RCPT (450/550/452/552) optionally plus a refused MAIL; non-trivial = at least one message is sendable; distinct = distinct (call sequence, reply script, seed)",
 		Assumptions: []string{"for the IgnoreInvalid setters the survivors are read back from the getters; the model demands only that they are a subsequence of the inputs and that no pure-ASCII valid input is dropped",
 			"XFromString is exercised with bare addr-specs only (its comma-separated format cannot carry display names with commas)",
 			"Bcc addresses are generated unique to the Bcc list, so any occurrence of one in the bytes is a leak"},
